@@ -173,6 +173,14 @@ func (qry *Query) parse() error {
 			}
 			return fmt.Errorf("parse additional: %v", err)
 		}
+		if h.Type != dnsmessage.TypeOPT {
+			// Skip non-OPT records, otherwise AdditionalHeader keeps returning
+			// the same header forever.
+			if err := p.SkipAdditional(); err != nil {
+				return fmt.Errorf("parse additional: %v", err)
+			}
+			continue
+		}
 		if h.Type == dnsmessage.TypeOPT {
 			opt, err := p.OPTResource()
 			if err != nil {
